@@ -150,6 +150,12 @@ impl Family {
                 l.push(b'\n');
                 spec_of(&[(&l, n)])
             }
+            // context prefix, the payload n times, context suffix (`close` = prefix 0x01 suffix)
+            "wrap" => {
+                let cut = self.close.iter().position(|c| *c == 1).unwrap_or(self.close.len());
+                let (pre, suf) = (&self.close[..cut], &self.close[(cut + 1).min(self.close.len())..]);
+                spec_of(&[(pre, 1), (&self.frag, n), (suf, 1)])
+            }
             "paras" => {
                 let mut l = self.frag.clone();
                 l.extend_from_slice(b"\n\n");
@@ -183,7 +189,7 @@ fn curated() -> Vec<Family> {
     let mut v = vec![];
     let f = |shape: &'static str, frag: &str, close: &str| Family { shape, frag: frag.as_bytes().to_vec(), close: close.as_bytes().to_vec(), curated: true };
     for (a, b) in [
-        ("[", "]"), ("[", "](u)"), ("![", "](u)"), ("[a](", ")"), ("[[", "]]"), ("*a ", " b*"), ("**a ", " b**"), ("_a ", " b_"), ("*a **b ", " c** d*"),
+        ("[", "]"), ("[", "](u)"), ("![", "](u)"), ("![", "]"), ("[", "][]"), ("[", "][a]"), ("![", "][]"), ("![", "][a]"), ("[*", "*]"), ("*[", "]*"), ("[`a` ", "]"), ("![a", "]"), ("[![", "]]"), ("[a](", ")"), ("[[", "]]"), ("*a ", " b*"), ("**a ", " b**"), ("_a ", " b_"), ("*a **b ", " c** d*"),
         ("~~a ", " b~~"), ("||a ", " b||"), ("^a ", " b^"), ("<", ">"), ("<a href=\"", "\">"), ("`", "`"), ("$", "$"), ("$$", "$$"), ("(", ")"), ("\"", "\""), ("'", "'"),
         ("> ", ""), (">", ""), ("- ", ""), ("1. ", ""), ("> - ", ""), (">>> ", ""), ("[^", "]"), ("<!--", "-->"), ("<![CDATA[", "]]>"), ("<?", "?>"), ("&", ";"),
     ] {
@@ -430,6 +436,12 @@ const OPTSETS: &[&str] = &["default", "gfm", "all"];
 
 pub fn run(cfg: &Cfg, rep: &mut Report) {
     rep.rule = "S: for every fragment up to length 3 (quick) / 4 (thorough) over the alphabet *_`[]()<>!&\\|~^$:-#=+@./\"' LF a 1 (fragments of only a/1/space skipped) the families a.f^n, (f LF)^n and f^n.a.mirror(f)^n, plus ~150 curated shapes as nest/tree/repeat/lines/paragraph families; each measured at two sizes n (2^11, 2^12 quick; up to 2^16, 2^17 thorough; length-3/4 fragments screened at smaller n and re-measured at the large sizes when the slope exceeds 1.1) under default, GFM and all-extensions options; per measurement: 12 deterministic step counters (hook comrak::verif::steps) over parse + HTML + CommonMark + XML, output lengths, wall clock in an isolated worker. Oracle: log-log slope of total steps <= 1.25 (+0.10 tolerance), output <= 160 n + 4096. K (equality of step counts, exhaustive short + random texts): backtick-scan == Lean btStepsPos on one-paragraph texts over {a, `}; dollar-scan (math_code on) == Lean dlSteps on texts over {$, `, a, \\}, and == cdSteps of the pieces when every scan runs to the end; emphasis-opener-search == Lean emSteps (pinned loop) on texts over {*, _, a, space}; proved bounds (3n; 14 n + chars for the repaired loop and for the pinned one without an odd match) re-checked on every text.".into();
+    if std::env::var("CVH_C06_ICOUNT_ONLY").is_ok() {
+        let mut ifams = wrap_families(cfg.tier_thorough);
+        ifams.extend(curated().into_iter().filter(|f| f.shape == "nest"));
+        run_icount(rep, &ifams, &["all"], 6000, 12000);
+        return;
+    }
     k_stage(cfg, rep);
     if std::env::var("CVH_C06_KONLY").is_ok() {
         return;
@@ -471,10 +483,171 @@ pub fn run(cfg: &Cfg, rep: &mut Report) {
     // smart punctuation + relaxed autolinks on the curated shapes
     let cur = curated();
     run_families(rep, &cur, &["all+smart"], big1, big2, "curated-smart");
+    // instruction counts (valgrind) on the payload contexts and the curated nest shapes
+    let mut ifams = wrap_families(cfg.tier_thorough);
+    ifams.extend(curated().into_iter().filter(|f| f.shape == "nest"));
+    let iopts: &[&'static str] = if cfg.tier_thorough { &["default", "all"] } else { &["all"] };
+    run_icount(rep, &ifams, iopts, 6000, 12000);
     for (i, f) in cur.iter().take(3).enumerate() {
         let _ = i;
         rep.sample(format!("family {} frag {:?} close {:?}: n=3 -> {:?}", f.shape, show(&f.frag), show(&f.close), show(&expand_spec(&f.spec(3)).unwrap_or_default())));
     }
+}
+
+// ------------------------------------------------------------------ instruction counts
+
+/// Payload contexts: a construct whose payload goes through its own cleaning / unescaping /
+/// normalising helper (destination, title, info string, label, ...), filled with n copies of a fragment.
+fn wrap_families(thorough: bool) -> Vec<Family> {
+    const CTX: &[(&str, &str)] = &[
+        ("[a](", ")\n"), ("[a](<", ">)\n"), ("[a](u \"", "\")\n"), ("![a](", ")\n"), ("``` ", "\nx\n```\n"), ("[a]: ", "\n\n[a]\n"), ("[a]: u \"", "\"\n\n[a]\n"),
+        ("[", "]: u\n"), ("[", "]\n"), ("<http://a/", ">\n"), ("`", "`\n"), ("> [!NOTE] ", "\n> x\n"), ("[[", "]]\n"), ("<a href=\"", "\">\n"), ("# ", "\n"),
+        ("| ", " |\n|-|\n"), ("[^", "]\n\n[^x]: y\n"), ("- [ ] ", "\n"), ("$", "$\n"), ("x\n: ", "\n"),
+    ];
+    let quick: &[&str] = &["\\!", "&amp;", "%20", "a", "(", "*", " ", "\u{e9}"];
+    let more: &[&str] = &["\\\\", "&#35;", "\"", "_", ")", "]", "[", "~", "|", "\\(", "a ", "A", "\u{130}"];
+    let mut v = vec![];
+    for (pre, suf) in CTX {
+        let mut close = pre.as_bytes().to_vec();
+        close.push(1);
+        close.extend_from_slice(suf.as_bytes());
+        for pl in quick.iter().chain(if thorough { more.iter() } else { [].iter() }) {
+            v.push(Family { shape: "wrap", frag: pl.as_bytes().to_vec(), close: close.clone(), curated: true });
+        }
+    }
+    v
+}
+
+fn valgrind_ok() -> bool {
+    std::process::Command::new("valgrind").arg("--version").stdout(std::process::Stdio::null()).stderr(std::process::Stdio::null()).status().map(|s| s.success()).unwrap_or(false)
+}
+
+/// Instructions executed by one worker process handling one case (cachegrind, no cache simulation: a
+/// deterministic count that includes work no step counter sees - copying, memmove, hashing, formatting).
+fn icount(case: &str, budget: Duration) -> Option<u64> {
+    use std::io::Write;
+    let exe = if std::path::Path::new("/proc/self/exe").exists() { std::fs::read_link("/proc/self/exe").ok()? } else { std::env::current_exe().ok()? };
+    let mut ch = std::process::Command::new("valgrind")
+        .args(["--tool=cachegrind", "--cache-sim=no", "--cachegrind-out-file=/dev/null", "--log-fd=2"])
+        .arg(exe)
+        .args(["worker", "C06"])
+        .env("CVH_MEM_CAP_MB", "8192")
+        .stdin(std::process::Stdio::piped())
+        .stdout(std::process::Stdio::piped())
+        .stderr(std::process::Stdio::piped())
+        .spawn()
+        .ok()?;
+    {
+        let mut si = ch.stdin.take()?;
+        let _ = si.write_all(case.as_bytes());
+        let _ = si.write_all(b"\n");
+    }
+    let t0 = std::time::Instant::now();
+    loop {
+        match ch.try_wait() {
+            Ok(Some(_)) => break,
+            Ok(None) => {
+                if t0.elapsed() > budget {
+                    let _ = ch.kill();
+                    let _ = ch.wait();
+                    return None;
+                }
+                std::thread::sleep(Duration::from_millis(20));
+            }
+            Err(_) => return None,
+        }
+    }
+    let out = ch.wait_with_output().ok()?;
+    if !String::from_utf8_lossy(&out.stdout).starts_with("ok ") {
+        return None;
+    }
+    let err = String::from_utf8_lossy(&out.stderr);
+    for l in err.lines() {
+        if let Some(i) = l.find("I   refs:") {
+            let n: String = l[i + 9..].chars().filter(|c| c.is_ascii_digit()).collect();
+            return n.parse().ok();
+        }
+    }
+    None
+}
+
+fn judge_icount(rep: &mut Report, optname: &str, fam: &Family, n1: usize, n2: usize, i0: u64, i1: Option<u64>, i2: Option<u64>) {
+    rep.s_evals += 2;
+    let (a, b) = match (i1, i2) {
+        (Some(a), Some(b)) => (a.saturating_sub(i0).max(1), b.saturating_sub(i0).max(1)),
+        _ => {
+            rep.count("icount-unmeasured(panic, crash or time-out: C01 / step-counter stage)");
+            return;
+        }
+    };
+    let (s1, s2) = (expand_len(&fam.spec(n1)), expand_len(&fam.spec(n2)));
+    let sl = ((b as f64) / (a as f64)).ln() / ((s2.max(1) as f64) / (s1.max(1) as f64)).ln();
+    let bucket = if sl < 0.9 { "<0.9" } else if sl <= 1.05 { "0.9-1.05" } else if sl <= 1.25 { "1.05-1.25" } else if sl <= 1.6 { "1.25-1.6" } else { ">1.6" };
+    rep.count(&format!("icount-slope-{}", bucket));
+    rep.nontrivial(&("icount", fam.name(), optname));
+    if sl > ISLOPE_LIMIT && b > 20_000_000 {
+        // a named mechanism class if there is one, else the family itself (instruction counts see every helper,
+        // so the class of a finding must not be wider than the family that shows it)
+        let named = family_sig(optname, fam, "steps-superlinear");
+        let sig = if named == format!("{}/{}", optname, fam.shape) { format!("{}/{}/{}/{}", optname, fam.shape, hex(&fam.frag), hex(&fam.close)) } else { named };
+        let input = format!("ipair {} {} {} {} {} {}", optname, fam.shape, hex(&fam.frag), hex(&fam.close), n1, n2);
+        rep.fail(
+            "instructions-superlinear",
+            &sig,
+            input,
+            format!("instructions (above the empty-document run) {} -> {} for input {} -> {} bytes (slope {:.2} > {:.2}); family {} {:?}/{:?} options {}", a, b, s1, s2, sl, ISLOPE_LIMIT, fam.shape, show(&fam.frag), show(&fam.close), optname),
+        );
+    }
+}
+
+fn expand_len(spec: &str) -> u64 {
+    expand_spec(spec).map(|b| b.len() as u64).unwrap_or(0)
+}
+
+/// Slope limit for instruction counts: generous (hash-map growth, allocator behaviour and buffer doubling
+/// add a few percent), far below the 2.0 of a quadratic helper.
+pub const ISLOPE_LIMIT: f64 = 1.40;
+
+fn run_icount(rep: &mut Report, fams: &[Family], optnames: &[&'static str], n1: usize, n2: usize) {
+    if !valgrind_ok() {
+        rep.notes.push("instruction-count stage skipped: valgrind not runnable".into());
+        return;
+    }
+    let t0 = std::time::Instant::now();
+    let budget = Duration::from_secs(120);
+    let mut cases: Vec<(usize, &'static str, usize)> = vec![];
+    for (i, _f) in fams.iter().enumerate() {
+        for o in optnames {
+            cases.push((i, o, n1));
+            cases.push((i, o, n2));
+        }
+    }
+    let next = std::sync::atomic::AtomicUsize::new(0);
+    let results: std::sync::Mutex<Vec<Option<u64>>> = std::sync::Mutex::new(vec![None; cases.len()]);
+    let mut base: std::collections::HashMap<&'static str, u64> = std::collections::HashMap::new();
+    for o in optnames {
+        base.insert(o, icount(&format!("fam {} 0a", o), budget).unwrap_or(0));
+    }
+    std::thread::scope(|sc| {
+        for _ in 0..default_workers() {
+            sc.spawn(|| loop {
+                let k = next.fetch_add(1, std::sync::atomic::Ordering::SeqCst);
+                if k >= cases.len() {
+                    break;
+                }
+                let (i, o, n) = cases[k];
+                let r = icount(&format!("fam {} {}", o, fams[i].spec(n)), budget);
+                results.lock().unwrap()[k] = r;
+            });
+        }
+    });
+    let results = results.into_inner().unwrap();
+    for k in (0..cases.len()).step_by(2) {
+        let (i, o, _) = cases[k];
+        rep.count(&format!("icount-families-{}", fams[i].shape));
+        judge_icount(rep, o, &fams[i], n1, n2, *base.get(o).unwrap_or(&0), results[k], results[k + 1]);
+    }
+    rep.notes.push(format!("instruction counts: {} valgrind runs (n = {} and {}) in {:.1}s; empty-document baselines {:?}", cases.len(), n1, n2, t0.elapsed().as_secs_f64(), base));
 }
 
 // ------------------------------------------------------------------ K
@@ -763,7 +936,7 @@ pub fn replay(kind: &str, input: &str) -> Result<Option<String>, String> {
     match toks.first() {
         Some(&"pair") if toks.len() >= 7 => {
             let optname: &'static str = OPTSETS.iter().chain(["all+smart"].iter()).find(|o| **o == toks[1]).copied().ok_or("bad option set")?;
-            let shape: &'static str = ["rep", "repraw", "headrep", "nest", "lines", "paras", "tree"].iter().find(|s| **s == toks[2]).copied().ok_or("bad shape")?;
+            let shape: &'static str = ["rep", "repraw", "headrep", "nest", "lines", "paras", "tree", "wrap"].iter().find(|s| **s == toks[2]).copied().ok_or("bad shape")?;
             let fam = Family { shape, frag: crate::util::unhex(toks[3]).ok_or("bad hex")?, close: crate::util::unhex(toks[4]).ok_or("bad hex")?, curated: true };
             let n1: usize = toks[5].parse().map_err(|_| "bad n")?;
             let n2: usize = toks[6].parse().map_err(|_| "bad n")?;
@@ -771,6 +944,14 @@ pub fn replay(kind: &str, input: &str) -> Result<Option<String>, String> {
             let jobs = vec![Job { fam: 0, optname, n: n1 }, Job { fam: 0, optname, n: n2 }];
             let res = measure(&jobs, &fams, Duration::from_secs(120));
             judge_pair(&mut rep, optname, &fams[0], n1, n2, &res[0], &res[1]);
+        }
+        Some(&"ipair") if toks.len() >= 7 => {
+            let optname: &'static str = OPTSETS.iter().chain(["all+smart"].iter()).find(|o| **o == toks[1]).copied().ok_or("bad option set")?;
+            let shape: &'static str = ["rep", "repraw", "headrep", "nest", "lines", "paras", "tree", "wrap"].iter().find(|s| **s == toks[2]).copied().ok_or("bad shape")?;
+            let fam = Family { shape, frag: crate::util::unhex(toks[3]).ok_or("bad hex")?, close: crate::util::unhex(toks[4]).ok_or("bad hex")?, curated: true };
+            let n1: usize = toks[5].parse().map_err(|_| "bad n")?;
+            let n2: usize = toks[6].parse().map_err(|_| "bad n")?;
+            run_icount(&mut rep, &[fam], &[optname], n1, n2);
         }
         Some(&"bt") if toks.len() >= 2 => {
             let m = Model::from_env();
